@@ -383,7 +383,15 @@ func suiteAlias(rn *runner, r *rng, tier string) {
 		c.emit("owalk n")
 		c.expectLast(before)
 		// clone independence: edit the original, the clone keeps the old document and vice versa
-		c.emit("clone c n")
+		// destination: nil, an empty object, a used object with a large or a small string buffer
+		cloneKind := cr.intn(4)
+		switch cloneKind {
+		case 2:
+			c.emit("parse cd 0 1 " + hx([]byte("[\"" + strings.Repeat("destination buffer ", 40) + "\"]")))
+		case 3:
+			c.emit("parse cd 0 1 " + hx([]byte("[\"d\"]")))
+		}
+		c.emit(fmt.Sprintf("clone c n %d", cloneKind))
 		c.pj = c.st.pjs["n"]
 		roots, err := refDecode(c.pj)
 		if err == nil {
@@ -402,12 +410,28 @@ func suiteAlias(rn *runner, r *rng, tier string) {
 				c.expectLast(ordRoots(croots))
 				c.emit("owalk n")
 				c.expectLast(ordRoots(roots))
+				// both sides grow their string buffers in turn: neither may write into the other's
+				if c.setStrOn(croots, "c", "written to the clone") {
+					c.pj = c.st.pjs["n"]
+					if c.setStrOn(roots, "n", "WRITTEN TO THE ORIGINAL, LONGER") {
+						c.pj = c.st.pjs["c"]
+						c.setStrOn(croots, "c", "clone again")
+					}
+					c.emit("owalk c")
+					c.expectLast(ordRoots(croots))
+					c.emit("owalk n")
+					c.expectLast(ordRoots(roots))
+					c.emit("iter mc c")
+					c.emit("marshal mc")
+					c.emit("iter mn n")
+					c.emit("marshal mn")
+				}
 			}
 		}
-		c.tc.class = fmt.Sprintf("nd=%v/reuse=%v/%s", nd, useReuse, sizeClass(len(text)))
+		c.tc.class = fmt.Sprintf("nd=%v/reuse=%v/clone=%d/%s", nd, useReuse, cloneKind, sizeClass(len(text)))
 		rn.addPrepared(c.tc)
 	}
-	rn.rep.Rule = "parse with copying, overwrite the whole input with 0xFF, re-read through every API; parse without copying, compare documents; Clone, edit original and clone alternately; distinct = (nd, size class)"
+	rn.rep.Rule = "parse with copying, overwrite the whole input with 0xFF, re-read through every API; parse without copying, compare documents; Clone into nil / an empty object / a used object with a larger or smaller string buffer, edit original and clone alternately incl. SetString on both sides in turn; distinct = (nd, reuse, clone destination, size class)"
 }
 
 // streamValues runs ParseNDStream over text and returns the delivered values (not yet read).
